@@ -25,6 +25,23 @@ unsafe impl GlobalAlloc for Counting {
 #[global_allocator]
 static GLOBAL: Counting = Counting;
 static PARSE_ALLOCS: AtomicU64 = AtomicU64::new(0);
+/// C01: the input being parsed right now, so that a panic / abort inside the real crate can be attributed to it
+static mut CUR: (&str, u8, usize, [u8; 256], usize) = ("", 0, 0, [0; 256], 0);
+fn set_cur(family: &'static str, cfg: u8, cap: usize, buf: &[u8]) {
+    unsafe {
+        let n = buf.len().min(256);
+        CUR.0 = family; CUR.1 = cfg; CUR.2 = cap; CUR.4 = n;
+        CUR.3[..n].copy_from_slice(&buf[..n]);
+    }
+}
+fn install_panic_hook() {
+    std::panic::set_hook(Box::new(|info| {
+        let (fam, cfg, cap, buf, n) = unsafe { (CUR.0, CUR.1, CUR.2, CUR.3, CUR.4) };
+        let msg = format!("{}", info).replace('"', "'").replace('\n', " ");
+        println!("{{\"stage\":\"any\",\"gen\":\"panic\",\"family\":\"{}\",\"oracle\":\"panic\",\"entry\":\"{}\",\"cfg\":{},\"cap\":{},\"input_hex\":\"{}\",\"input\":\"{}\",\"real\":\"PANIC: {}\",\"expected\":\"returns normally\"}}",
+            fam, fam, cfg, cap, hex(&buf[..n]), esc(&buf[..n]), msg);
+    }));
+}
 fn noalloc<T>(f: impl FnOnce() -> T) -> T {
     let a = ALLOCS.load(Ordering::Relaxed);
     let r = f();
@@ -150,6 +167,7 @@ fn hdrs_match(real: &[(Option<(usize, usize)>, Option<(usize, usize)>, usize)], 
 }
 
 fn check_request(ctx: &mut Ctx, buf: &[u8], cfgb: u8, cap: usize) {
+    set_cur("request", cfgb, cap, buf);
     let cfg = Cfg::from_bits(cfgb);
     let exp = spec_request(buf, cfg, cap);
     for entry in 0..2u8 {
@@ -171,6 +189,7 @@ fn check_request(ctx: &mut Ctx, buf: &[u8], cfgb: u8, cap: usize) {
     }
 }
 fn check_response(ctx: &mut Ctx, buf: &[u8], cfgb: u8, cap: usize) {
+    set_cur("response", cfgb, cap, buf);
     let cfg = Cfg::from_bits(cfgb);
     let exp = spec_response(buf, cfg, cap);
     for entry in 0..2u8 {
@@ -197,6 +216,7 @@ fn check_response(ctx: &mut Ctx, buf: &[u8], cfgb: u8, cap: usize) {
     }
 }
 fn check_headers(ctx: &mut Ctx, buf: &[u8], cap: usize) {
+    set_cur("headers", 0, cap, buf);
     ctx.evals += 1;
     let exp = spec_hdrs(buf, 0, HCfg::default(), cap);
     let mut arr = vec![httparse::Header { name: SENT_NAME, value: SENT_VAL }; cap];
@@ -210,6 +230,7 @@ fn check_headers(ctx: &mut Ctx, buf: &[u8], cap: usize) {
     if !ok { ctx.add(Finding { stage: "headers", gen: "", family: "headers", oracle: "parse_headers".into(), entry: "parse_headers".into(), cfg: 0, cap, input: buf.to_vec(), real: real_s, expected: format!("{:?}", exp) }); }
 }
 fn check_chunk(ctx: &mut Ctx, buf: &[u8]) {
+    set_cur("chunk", 0, 0, buf);
     ctx.evals += 1;
     let exp = spec_chunk(buf);
     let r = noalloc(|| httparse::parse_chunk_size(buf));
@@ -264,7 +285,7 @@ fn search_request(ctx: &mut Ctx) {
     let alpha = [b'G', b' ', b'/', b'\r', b'\n', b'\t', 0u8, 0x7f, 0xff, b':', b'H', b'1'];
     for cfgb in [0u8, 4, 16 + 64, 127] {
         enumerate(&alpha, 5, b"", b"", &mut |b| { check_request(ctx, b, cfgb, 1); !ctx.full() });
-        for prefix in [&b"GET "[..], b"POST ", b"GET / ", b"GET / HTTP/1.", b"GET / HTTP/1.1", b"GET / HTTP/1.1\r\n", b"\r\n\nX "] {
+        for prefix in [&b"GET "[..], b"POST ", b"POS", b"DELE", b"DELET", b"DELETE ", b"PUT ", b"HEAD", b"OPTI", b"PATC", b"CONN", b"TRAC", b"GET / ", b"GET / HTTP/1.", b"GET / HTTP/1.1", b"GET / HTTP/1.1\r\n", b"\r\n\nX "] {
             enumerate(&alpha, 4, prefix, b"", &mut |b| { check_request(ctx, b, cfgb, 1); !ctx.full() });
         }
         if ctx.full() { return; }
@@ -380,6 +401,7 @@ fn search_header_block(ctx: &mut Ctx, start: &[u8], kind: u8) {
 }
 
 fn main() {
+    install_panic_hook();
     let args: Vec<String> = std::env::args().collect();
     if args.len() >= 3 && args[1] == "search" {
         let mut ctx = Ctx { findings: vec![], evals: 0, max: 60, gen: "enum" };
